@@ -50,6 +50,9 @@ def cases(tier, seed):
         out.append({"seed": seed, "kind": "concurrent", "idx": i, "_cost": 12})
     for i in range(4 if tier == "quick" else 24):
         out.append({"seed": seed, "kind": "inherited", "idx": i, "_cost": 8})
+    # the cache directory on another filesystem than the system's temporary directory (a scratch mount, /dev/shm)
+    for i in range(2 if tier == "quick" else 8):
+        out.append({"seed": seed, "kind": "other_filesystem", "idx": i, "_cost": 4})
     return out
 
 
@@ -291,7 +294,47 @@ def run_case(case):
 
     _rc.NUM_THREADS = 1
     return {"pairs": pairs, "sequence": sequence, "truncate": truncate, "corrupt": corrupt, "kill": kill,
-            "concurrent": concurrent, "inherited": inherited}[case["kind"]](case)
+            "concurrent": concurrent, "inherited": inherited, "other_filesystem": other_filesystem}[case["kind"]](case)
+
+
+def other_filesystem(case):
+    """Transparency and effectiveness with the cache directory on a filesystem other than the one temporary files go to."""
+    import os
+    import shutil
+    import tempfile
+
+    tdev = os.stat(tempfile.gettempdir()).st_dev
+    root = None
+    for cand in ("/dev/shm", "/run/shm", os.path.expanduser("~"), "/var/tmp", os.getcwd()):
+        try:
+            if os.path.isdir(cand) and os.access(cand, os.W_OK) and os.stat(cand).st_dev != tdev:
+                root = cand
+                break
+        except OSError:
+            pass
+    if root is None:
+        return {"evals": 0, "nontrivial": False, "skipped": "no writable directory on a filesystem other than the temporary directory's"}
+    names = [variant_names()[(3 * case["idx"] + k_) % len(variant_names())] for k_ in range(3)]
+    names = [n_ for n_ in names if n_ != "dispersion"] or ["base"]
+    ref = reference(set(names))
+    viol = []
+    counters = {"solves": 0, "hits": 0, "misses": 0, "repeat_requests": 0, "hit_on_unseen": 0}
+    d = tempfile.mkdtemp(dir=root, prefix="bldfm-verif-c15-")
+    M = Monitors(d)
+    try:
+        seen = set()
+        for nm in names + names:
+            try:
+                res, ev, sw = M.solve(build(nm))
+            except BaseException as e:  # noqa
+                viol.append(dict(what="request_with_cache_on_another_filesystem_is_fatal", request=nm, exc=f"{type(e).__name__}: {str(e)[:160]}", directory=root))
+                break
+            check_step(nm, res, ev, sw, ref, seen, viol, dict(history=names + names, cache_directory_on=root), counters)
+    finally:
+        M.close()
+        shutil.rmtree(d, ignore_errors=True)
+    return {"evals": counters["solves"], "nontrivial": True, "sig": f"otherfs|{case['idx']}", "buckets": {"cache_directory:other_filesystem": 1},
+            "counters": dict(counters, cache_directories_on_another_filesystem=1), "violations": viol, "sample": {"directory_root": root, "history": names + names}}
 
 
 def _inherited_child(cache, names, seed, slow, start, q):
